@@ -63,6 +63,8 @@ pub struct RunResult {
   pub corr_failures: u64,
   pub model_oracle_failures: u64,
   pub driver_lines: u64,
+  pub known_counts: BTreeMap<String, u64>,
+  pub unknown_oracle_failures: u64,
 }
 
 fn hash_case(c: &Case) -> u64 { let mut h = std::collections::hash_map::DefaultHasher::new(); c.hash(&mut h); h.finish() }
@@ -170,16 +172,24 @@ fn run_worker(p: &TreeProp, cfg: &RunCfg, w: usize, n: u64, corpus: &[Case]) -> 
     let corr = (p.project)(&case, &oi) != (p.project)(&case, &om);
     for f in &fi {
       r.oracle_failures += 1;
+      if let Some(k) = (p.known)(&case, f, &oi) {
+        *r.known_counts.entry(k.clone()).or_default() += 1;
+        if r.failures.iter().filter(|x| x.known.as_deref() == Some(k.as_str())).count() < 2 {
+          r.failures.push(Failure { kind: "oracle", clause: f.clause.clone(), detail: f.detail.clone(), case: case.clone(), known: Some(k) });
+        }
+        continue;
+      }
+      r.unknown_oracle_failures += 1;
       let key = format!("oracle:{}", f.clause);
       let (c2, f2) = if shrunk_clauses.len() < cfg.max_shrink && shrunk_clauses.insert(key) {
         let clause = f.clause.clone();
-        let c2 = shrink_case(&case, &mut |c| (p.oracle)(c, &run_case_impl(c)).iter().any(|x| x.clause == clause));
-        let f2 = (p.oracle)(&c2, &run_case_impl(&c2)).into_iter().find(|x| x.clause == clause).unwrap_or(f.clone());
+        let c2 = shrink_case(&case, &mut |c| { let o = run_case_impl(c); (p.oracle)(c, &o).iter().any(|x| x.clause == clause && (p.known)(c, x, &o).is_none()) });
+        let o2 = run_case_impl(&c2);
+        let f2 = (p.oracle)(&c2, &o2).into_iter().find(|x| x.clause == clause && (p.known)(&c2, x, &o2).is_none()).unwrap_or(f.clone());
         (c2, f2)
       } else { (case.clone(), f.clone()) };
-      let known = (p.known)(&c2, &f2, &run_case_impl(&c2));
-      if r.failures.iter().filter(|x| x.kind == "oracle" && x.clause == f2.clause).count() < 5 {
-        r.failures.push(Failure { kind: "oracle", clause: f2.clause.clone(), detail: f2.detail.clone(), case: c2, known });
+      if r.failures.iter().filter(|x| x.kind == "oracle" && x.known.is_none() && x.clause == f2.clause).count() < 5 {
+        r.failures.push(Failure { kind: "oracle", clause: f2.clause.clone(), detail: f2.detail.clone(), case: c2, known: None });
       }
     }
     if fi.is_empty() { for f in &fm {
@@ -217,6 +227,7 @@ pub fn run_tree_prop(p: &TreeProp, cfg: &RunCfg) -> RunResult {
     if t.samples.len() < 3 { t.samples.extend(r.samples.into_iter().take(3 - t.samples.len())); }
     t.failures.extend(r.failures); t.impl_panics += r.impl_panics; t.oracle_failures += r.oracle_failures; t.corr_failures += r.corr_failures;
     t.model_oracle_failures += r.model_oracle_failures; t.driver_lines += r.driver_lines;
+    t.unknown_oracle_failures += r.unknown_oracle_failures; for (k, v) in r.known_counts { *t.known_counts.entry(k).or_default() += v; }
   }
   t
 }
